@@ -52,6 +52,24 @@ CLAIMED = {
             "Sampling, not proof: a clean batch is evidence.",
             "Trusted: the reference model in simkit/b_c29.py; 'most used' judged only where lifetime and since-resize counts agree.",
             "5 (C29)"),
+    "C33": ("simB", "seeded operation-history simulation vs reference model, ddmin + replay",
+            "Seeded sampling of StrPatchwork histories (index/slice reads at and past the end, writes that grow the buffer, appends, "
+            "searches right after mutations) against a bytearray+padding model; content compared after every step.",
+            "Trusted: the bytearray model; non-negative indices; slice writes of the slice's length or open-ended.",
+            "5 (C33)"),
+    "C28": ("simB", "seeded operation-history simulation vs reference model, ddmin + replay",
+            "Seeded sampling of LocationDB API histories over tiny name/offset pools (so that rejections and collisions dominate), "
+            "including merge with a second seeded database; relational model compared through every getter after every call, "
+            "rejected calls must leave all getters unchanged.",
+            "Trusted: relational model and the order-independent merge-conflict analysis in simkit/b_c28.py; state after a merge that "
+            "raises on conflicting databases is only required to be consistent.",
+            "5 (C28)"),
+    "C30": ("simB", "seeded operation-history simulation vs reference model, ddmin + replay",
+            "Seeded sampling of AsmCFG mutation histories (add/del block, add/del edge, merge, raw bto mutation + rebuild_edges) with "
+            "self-loops, duplicate constraints and several block objects per LocKey; edges, labels, successors and pendings recomputed "
+            "from the model after every step.",
+            "Trusted: constraint-set model; add_edge/del_edge between present blocks; duplicate constraints share one kind.",
+            "5 (C30)"),
 }
 
 
